@@ -9,6 +9,7 @@ pub mod c06;
 pub mod c08;
 pub mod c09;
 pub mod c12;
+pub mod c14;
 pub mod c15;
 pub mod c16;
 pub mod c17;
@@ -30,6 +31,7 @@ pub fn plan(id: &str, tier: Tier) -> Option<Plan> {
         "C09" => Some(c09::plan(tier)),
         "C12" => Some(c12::plan(tier)),
         "C13" => Some(c13::plan(tier)),
+        "C14" => Some(c14::plan(tier)),
         "C15" => Some(c15::plan(tier)),
         "C16" => Some(c16::plan(tier)),
         "C17" => Some(c17::plan(tier)),
